@@ -3,6 +3,7 @@
 From Coq Require Import ZArith List Bool.
 Import ListNotations.
 Require Import SV.C16.TailF SV.C16.Chunked SV.C16.StreamProofs SV.C16.Channel SV.C16.ChannelProofs.
+Require Import SV.C16.LogRead SV.C16.RpcFiles SV.C16.RpcFilesProofs.
 Open Scope Z_scope.
 
 (* While the followed file stays the same file and only grows, a producer that
@@ -185,3 +186,37 @@ Theorem c16_channel_stream :
         received (client_feed segs) = skipn (Z.to_nat (zlen c0 - Z.min head (zlen c0))) polledc.
 Proof. exact channel_stream. Qed.
 Print Assumptions c16_channel_stream.
+
+(* ---- channels without a readable log (file-system oracle) ---------------- *)
+
+(* readLog / readProcessStdoutLog / readProcessStderrLog fault NO_FILE exactly
+   when no log is configured (None) or the configured name does not exist *)
+Theorem c16_read_nofile_iff :
+  forall fs cfg off len, rpc_read_fs fs cfg off len = RFault NO_FILE <-> no_log fs cfg.
+Proof. exact read_nofile_iff. Qed.
+Print Assumptions c16_read_nofile_iff.
+
+Theorem c16_read_with_file :
+  forall fs n c off len, fs n = File c -> rpc_read_fs fs (Some n) off len = rpc_read_log (Some c) off len.
+Proof. exact read_with_file. Qed.
+Print Assumptions c16_read_with_file.
+
+Theorem c16_read_dir_failed :
+  forall fs n off len, fs n = Dir -> rpc_read_fs fs (Some n) off len = RFault FAILED.
+Proof. exact read_dir_failed. Qed.
+Print Assumptions c16_read_dir_failed.
+
+Theorem c16_tail_no_log :
+  forall fs cfg off len, no_log fs cfg -> rpc_tail_fs fs cfg off len = TValue [] 0 false.
+Proof. exact tail_no_log. Qed.
+Print Assumptions c16_tail_no_log.
+
+Theorem c16_tail_with_file :
+  forall fs n c off len, fs n = File c -> rpc_tail_fs fs (Some n) off len = rpc_tail_log (Some c) off len.
+Proof. exact tail_with_file. Qed.
+Print Assumptions c16_tail_with_file.
+
+Theorem c16_clear_nofile_iff :
+  forall fs cfg, rpc_clear_main fs cfg = CFault NO_FILE <-> no_log fs cfg.
+Proof. exact clear_nofile_iff. Qed.
+Print Assumptions c16_clear_nofile_iff.
